@@ -30,6 +30,7 @@ func init() {
 		"strings.IndexRune":                     mIndexRune,
 		"strings.IndexAny":                      mIndexAny,
 		"strings.TrimLeft":                      mTrimLeft,
+		"bytes.TrimLeft":                        mTrimLeft,
 		"strings.ToLower":                       mToLower,
 		"(encoding/binary.littleEndian).Uint32": func(f *frame, st *State, ins *ssa.Call, a []Val) Val { return mUint(f, st, ins, a, 4, false) },
 		"(encoding/binary.littleEndian).Uint16": func(f *frame, st *State, ins *ssa.Call, a []Val) Val { return mUint(f, st, ins, a, 2, false) },
